@@ -137,6 +137,16 @@ class RCase(rc.Case):
     pass
 
 
+BRACE_SHAPES = [
+    ("void h(int *p) { /* tables */\n@OFF@\n@BODY@\n@ON@\n    p[1] = 2;\n}\n", ["nl_fdef_brace=force"]),
+    ("void h(int a)\n{\n    while (a) { // loop\n@OFF@\n@BODY@\n@ON@\n        a--;\n    }\n}\n", ["nl_while_brace=add", "nl_if_brace=add", "nl_for_brace=add"]),
+    ("void h(int a)\n{\n    if (a) { /* c */\n@OFF@\n@BODY@\n@ON@\n    }\n    else { // d\n        a = 1;\n    }\n}\n", ["nl_if_brace=force", "nl_else_brace=force"]),
+    ("void h(int a)\n{\n    if (a)\n        a = 4; @OFF@\n@BODY@\n@ON@\n    a = 6;\n}\n", ["mod_full_brace_if=add"]),
+    ("void h(int a)\n{\n    for (;;)\n        a++; @OFF@\n@BODY@\n@ON@\n}\n", ["mod_full_brace_for=add", "mod_full_brace_while=add"]),
+    ("struct s { /* fields */\n@OFF@\n@BODY@\n@ON@\n    int z;\n};\n", ["nl_struct_brace=force", "nl_enum_brace=force"]),
+]
+
+
 def build_case(r, idx, label):
     """a generated C program with 1..3 disabled regions; returns RCase with .regions = [(tag, off_line, on_line or None, [region lines])]"""
     fl = r.choice(FLAVORS)
@@ -563,6 +573,21 @@ def run(rep, build, tier, seed):
         for a in c.alts:
             a.base_data = c.data
         cases.append(c)
+    # fixed shapes: a region directly behind an opening brace that the nl_*_brace options move (with a comment behind it), and
+    # the disabling marker as trailing comment of a brace-less body that mod_full_brace_*=add wraps - the passes that move
+    # or insert braces must not put them onto a region line
+    for k, (tmpl, cfg) in enumerate(BRACE_SHAPES):
+        for fl in FLAVORS[:2]:
+            name, fcfg, mk_off, mk_on, ontext = fl
+            tag = "TAGB%dx0" % k
+            body = region_text(r, 3)
+            text = tmpl.replace("@OFF@", mk_off(tag)).replace("@ON@", mk_on(tag)).replace("@BODY@", "\n".join(body))
+            c = RCase("brace-shape:%d:%s" % (k, name), "C", "\n".join(list(fcfg) + cfg) + "\n", text.encode("utf-8"))
+            c.regions, c.flavor, c.ontext = [{"tag": tag, "body": body, "open_end": False, "flavor": name}], name, ontext
+            c.alts = [with_bodies(c, r, True), with_bodies(c, r, False)]
+            for a in c.alts:
+                a.base_data = c.data
+            cases.append(c)
     cases += corpus_wrapped(r, nw)
     stats = {"rc": {}}
     corr = explore(rep, cases, r, stats)
